@@ -60,15 +60,16 @@ func (fsm *FSM) Apply(log *raft.Log) interface{} {
 	case raft.LogCommand:
 		var request internal.ApplyRequest
 
+		verifhook.Event("fsm.apply", fsm.options.Config.ServerID, log.Index, log.Data)
+		defer verifhook.Event("fsm.applied", fsm.options.Config.ServerID, log.Index)
+
 		if err := json.Unmarshal(log.Data, &request); err != nil {
+			verifhook.Event("fsm.apply.undecodable", fsm.options.Config.ServerID, log.Index, err)
 			return internal.ApplyResponse{
 				Error:    err,
 				Response: nil,
 			}
 		}
-
-		verifhook.Event("fsm.apply", fsm.options.Config.ServerID, log.Index, log.Data)
-		defer verifhook.Event("fsm.applied", fsm.options.Config.ServerID, log.Index)
 
 		ctx := context.WithValue(context.Background(), internal.ContextServerID("ServerID"), request.ServerID)
 		ctx = context.WithValue(ctx, internal.ContextConnID("ConnectionID"), request.ConnectionID)
